@@ -84,6 +84,30 @@ func main() {
 		if len(probs) > 0 {
 			os.Exit(2)
 		}
+	case "known-test":
+		// known-test <prop>: reads violation keys from stdin, prints those no listed finding covers
+		known := loadKnown(os.Args[2])
+		sc := bufio.NewScanner(os.Stdin)
+		sc.Buffer(make([]byte, 1<<20), 1<<20)
+		total, uncovered := 0, 0
+		for sc.Scan() {
+			key := strings.TrimSpace(sc.Text())
+			if key == "" {
+				continue
+			}
+			total++
+			covered := false
+			for _, k := range known {
+				if knownMatches(k, key) {
+					covered = true
+				}
+			}
+			if !covered {
+				uncovered++
+				fmt.Println(key)
+			}
+		}
+		fmt.Printf("keys=%d uncovered=%d\n", total, uncovered)
 	case "list":
 		pc := registry[os.Args[2]]
 		for i, u := range pc.Units(os.Args[3]) {
